@@ -240,6 +240,13 @@ def configs(tier):
         out.append({'name': 'batch-b2-dim1-crit%d-con0-after-another-problem' % ci, 'task': 'batch',
                     'args': {'dim': 1, 'criteria': CRITS[ci], 'ncon': 0, 'b': 2, 'after_another_problem': True},
                     'weight': 16, 'engine': {'validate': 30}})
+    many = [('minimize', 'maximize', 'minimize', 'maximize'), ('maximize', None, 'minimize', 'maximize', 'maximize'),
+            ('minimize', 'minimize', 'maximize', 'minimize', 'maximize', 'minimize', 'maximize')]
+    for crit in (many[:2] if tier == 'quick' else many):
+        out.append({'name': 'batch-b2-dim1-%d-objectives' % len(crit), 'task': 'batch',
+                    'args': {'dim': 1, 'criteria': crit, 'ncon': 0, 'b': 2}, 'weight': 16, 'engine': {'validate': 30}})
+    out.append({'name': 'batch-b1-dim2-4-objectives-con2', 'task': 'batch',
+                'args': {'dim': 2, 'criteria': many[0], 'ncon': 2, 'b': 1}, 'weight': 16, 'engine': {'validate': 30}})
     nv = 3 if tier == 'quick' else 4
     out.append({'name': 'sweep-%d' % nv, 'task': 'sweep', 'args': {'dim': 2, 'nvec': nv, 'criteria': ('minimize', 'maximize')},
                 'weight': 5})
